@@ -346,6 +346,30 @@ pub fn breaker_probe(s: &Sim, candidates: &[Act]) -> StateObs {
     } else {
         // resume: only the admin; sets exactly the three totals and the flag
         let st = s.w.state();
+        // ... and only ResumeContract: no other message, from the admin, a monitor or a stranger, may
+        // clear the flag as a side effect (configuration updates rebuild the stored Config)
+        let mut others: Vec<(ExecuteMsg, Vec<(String, u128)>)> =
+            hostile_exec_menu(s).into_iter().filter(|(m, f)| !matches!(m, ExecuteMsg::ResumeContract { .. }) && f.is_empty() && six_kind(&exec(&admin, m.clone(), vec![])).is_none()).collect();
+        others.dedup_by(|a, b| format!("{:?}", a.0) == format!("{:?}", b.0));
+        let mut kept_flag = 0u32;
+        for (m, f) in &others {
+            for who in [admin.clone(), p20("mon"), p20("x")] {
+                if who != admin && !matches!(m, ExecuteMsg::UpdateConfig { .. } | ExecuteMsg::CircuitBreaker {}) {
+                    continue;
+                }
+                let mut t = s.clone();
+                let ap = t.apply(&exec(&who, m.clone(), f.clone()));
+                o.probes += 1;
+                if !t.w.config().stopped {
+                    o.violations.push(viol("C10", "breaker.resumed_by_other_message", format!("{:?} by {who} (ok={}) cleared the halted flag", m, ap.out.ok)));
+                } else if ap.out.ok {
+                    kept_flag += 1;
+                }
+            }
+        }
+        if kept_flag > 0 {
+            o.tags.push("c10:other_messages_keep_flag".into());
+        }
         for who in [p20("mon"), p20("x"), u(1)] {
             let mut t = s.clone();
             let ap = t.apply(&resume(&who, st.total_native_token.u128(), st.total_liquid_stake_token.u128(), st.total_reward_amount.u128()));
